@@ -167,12 +167,11 @@ impl VouchedTime {
         let local_time_ms = local_time_ms as u64;
         // if local_time - base_time in [-MAX_BACKWARD_DISCREPANCY_MS, MAX_FORWARD_DISCREPANCY_MS]
         //
-        // We subtract base_time_ns, and add MAX_BACKWARD_DISCREPANCY_MS.  This maps the
-        // allowed range to `[0, MAX_BACKWARD_DISCREPANCY_MS + MAX_FORWARD_DISCREPANCY_MS]`.
-        if local_time_ms
-            .wrapping_sub(base_time_ms)
-            .wrapping_add(MAX_BACKWARD_DISCREPANCY_MS)
-            <= MAX_BACKWARD_DISCREPANCY_MS + MAX_FORWARD_DISCREPANCY_MS
+        // Compute the signed difference in a wider type: wrapping u64
+        // arithmetic accepts pairs that are ~2^64 ms apart.
+        let delta = (local_time_ms as i128) - (base_time_ms as i128);
+        if (-(MAX_BACKWARD_DISCREPANCY_MS as i128)..=(MAX_FORWARD_DISCREPANCY_MS as i128))
+            .contains(&delta)
         {
             return Ok(());
         }
